@@ -127,3 +127,18 @@ package actionlint
 //@   anchor
 //@   ensures n.RunsOn != nil && len(n.RunsOn.Labels) != 1 ==> rule.compats == nil
 //@   at_call (*RuleRunnerLabel).checkLabelAndConflict: fresh(rule.compats)
+
+// C09 / C10: the type computed for a matrix is built up in place (members added, `include` / `exclude`
+// removed). The object written to must be one this very call has allocated - never the type object of a
+// context (github.event, inputs, needs ...), which is shared by every expression, job and file.
+// `owner` is the ObjectType whose Props map is updated.
+//@ func (*RuleExpression).checkMatrix
+//@   at_store [C09 C10] ObjectType.Props: fresh(owner)
+//@   loop "range m.Include.Combinations":
+//@     invariant [C09 C10] o != nil && fresh(o)
+//@   loop "range combi.Assigns" #2:
+//@     invariant [C09 C10] o != nil && fresh(o)
+//@ func (*RuleExpression).checkMatrixExpression
+//@   at_store [C09 C10] ObjectType.Props: fresh(owner)
+//@ func (*ObjectType).DeepCopy
+//@   ensures [C09 C10] istype(result, "*ObjectType") && fresh(dyn(result, "*ObjectType"))
